@@ -4,8 +4,9 @@ int main(int argc, char** argv)
 {
   FEAT::Runtime::ScopeGuard guard(argc, argv);
   verif::Spec spec; c07::fill_spec(spec, "c07_solvers", "None");
-  spec.bounds_quick = "21 solver variants x admissible preconditioners; systems: tridiag(b,a,b) a{2,4} b{-1,0,1} n 1..4, diag-scaled 2^(k i) k{1,2}, full SPD n 2..4, 5-point 2x2/3x3, "
-    "nonsymmetric tridiag+skew n{2,4} and 5-point+skew; rhs {e_0, ones, A*x_dyadic}; max_iter {100,0,1,2} x min_iter {0,2} x tol_rel {1e-8, 1e-2 (with max_iter 100/2)}; histories of 2 operations +- reinit";
-  spec.bounds_thorough = "all scalings, nonsymmetric n=3, rhs all e_i, all 16 limit combinations, histories of 3 operations";
+  spec.bounds_quick = "21 solver variants (PCG, PCR, BiCGStab left/right, BiCGStabL(1) left, BiCGStabL(2) left/right, FGMRES(2,delta=0), FGMRES(3,delta=1), GMRES(2,delta=0), GMRES(3,delta=1), Richardson(0.5), RGCR, IDR(1), IDR(2), PCGNR, PMR, Chebyshev) x admissible preconditioners none/Jacobi/SSOR/ILU(0); "
+    "systems: tridiag(b,a,b) a{2,4} b{-1,0,1} n 1..4, diag-scaled 2^(k i) k{1,2} (n=4 and one n=2), full SPD n 2..4, 5-point 2x2/3x3, nonsymmetric tridiag+skew n{2,4} and 5-point+skew; "
+    "rhs {e_0, ones, A*x_dyadic}; max_iter {100,0,1,2} x min_iter {0,2} x tol_rel {1e-8, 1e-2 (with max_iter 100/2)}; histories of 2 operations with/without done+init in between";
+  spec.bounds_thorough = "all scalings for n 2..4, nonsymmetric n=3, rhs all e_i, all 16 limit combinations, additionally histories of 3 operations";
   return verif::run(spec, argc, argv, [&](verif::Ctx& c) { c07::enumerate<c07::LocalPolicy<FEAT::LAFEM::NoneFilter<double, FEAT::Index>>>(c, false); });
 }
